@@ -2819,11 +2819,6 @@ fn main() {
 		addr_messages(&mut cx);
 		utf8_user_agents(&mut cx);
 	}
-	if mode == "minetest" {
-		for b in [10u8, 11, 12, 13, 14, 15, 16, 17, 18] {
-			let _ = sized_headers(&mut cx, &[b]);
-		}
-	}
 	if mode == "all" || mode == "conn" {
 		conn_level(&mut cx, &work);
 	}
